@@ -607,6 +607,22 @@ func (ms *Modules) include(m *Module) error {
 	}
 	ms.includes[m] = true
 
+	// fetch looks on the search path for the revision that an import or
+	// include statement names when that revision is not loaded. FindModule
+	// settles for any loaded revision of the module then, and looks for
+	// files only when none is loaded, so what the statement came to denote
+	// depended on whether another revision had been loaded before this
+	// run or not. (This is done here and not in FindModule, which
+	// FindModuleByPrefix calls for read-only lookups, too.)
+	fetch := func(name string, date *Value, loaded map[string]*Module) {
+		if date == nil || strings.ContainsAny(name+date.Name, "/\\") {
+			return
+		}
+		if rev := name + "@" + date.Name; loaded[rev] == nil && loaded[name] != nil {
+			ms.Read(rev)
+		}
+	}
+
 	// A link that cannot be made does not stop the linking of the others:
 	// what the statements after it name is loaded and linked all the same
 	// (by this run, not only when something later happens to ask for it).
@@ -620,6 +636,7 @@ func (ms *Modules) include(m *Module) error {
 
 	// First process any includes in this module.
 	for _, i := range m.Include {
+		fetch(i.Name, i.RevisionDate, ms.SubModules)
 		im := ms.FindModule(i)
 		if im == nil {
 			note(fmt.Errorf("no such submodule: %s", i.Name))
@@ -646,6 +663,7 @@ func (ms *Modules) include(m *Module) error {
 	// Next process any imports in this module.  Imports are used
 	// when searching.
 	for _, i := range m.Import {
+		fetch(i.Name, i.RevisionDate, ms.Modules)
 		im := ms.FindModule(i)
 		if im == nil {
 			note(fmt.Errorf("no such module: %s", i.Name))
